@@ -19,7 +19,11 @@ RULE = ('T2: float() syntax (bytes and str arguments), order of finite decimals,
 	'parameters after q (with and without values, quoted, blanks around them, names that collide), and a mutated stream. Oracle: non-increasing finite '
 	'qualities, every listed element exactly once with its parameters (accept-ext parameters included), malformed or empty q -> InvalidHeader, no exception other than '
 	'InvalidHeader, order invariance of the multiset and the quality sequence. '
-	'non-trivial = distinct (kind, field, value) with a distinct outcome')
+	'non-trivial = distinct (kind, field, value) with a distinct outcome. Fourth wave: the five field names in every letter case, registered media types (CODECS, read at run time) as values in every case; '
+	'parameter values as token / quoted-string / quoted-pairs, parameters and elements in another order (perm); 11..4096 elements, values, parameter names and values, q texts and blank runs of limit lengths '
+	'(model up to 600 octets, oracle beyond); 90 degenerate fields x five names; uni (oracle): NFC / NFD / compatibility / Hangul / astral text in parameter (RFC 2231, raw ISO-8859-1, API) and value '
+	'(RFC 2047) positions comes back code point for code point and reads back from what was composed; seq (oracle): one Headers object set / parsed / appended / element-set / deleted / rotated in turn, '
+	'elements() twice and against a fresh object each time, q parameters of returned elements replaced and re-sorted')
 EXHAUSTIVE = {'quick': False, 'thorough': False}
 TRUSTED = ['harness/tables/elemlex.py + harness/tables/accept.py (T1: bytes.strip set, regex classes, pinned patterns, float() octet classes and special words, the five field classes)',
 	'harness/props/C19.py + coq/Corr/C19.v (T2 canonicalisation: str values re-encoded as ISO-8859-1, qualities as exact fractions for the oracle and never given to Coq)',
@@ -234,7 +238,199 @@ def gen_cases(rng, tier):
 			elif fv:
 				del fv[rng.randrange(len(fv))]
 		cases.append({'k': 'elems', 'name': name, 'fv': bytes(fv).hex()})
+	cases.extend(_wave4(rng, tier))  # appended last: the cases above stay what they were for a given seed
 	return cases
+
+
+# ------------------------------------------------------------------ fourth wave: the six classes of DESIGN.md section 8
+LIMITS = [11, 12, 75, 76, 255, 256, 1023, 1024, 4095, 4096]
+UNITEXT = ['e\u0301', '\u00e9', 'A\u030a', '\u00c5', '\u212b', '\u2126', '\u03a9', '\u212a', '\u1100\u1161', '\uac00', '\uf900', '\u8c48', '\U0001f600', '\U00020000',
+	'\ufb01', '\uff41', '\u00b5', '\u03bc', '\u00df', '\u0130']
+RAWTEXT = ['\xb5', '\xb2', '\xaa', '\xba', '\xb9\xbd', '\xe9', 'e\xb4', '\xc5', '\xdf', '\xa0x', 'x\xad']
+
+
+def _lcases(s):
+	out = []
+	for x in (s, s.lower(), s.upper(), s.swapcase()):
+		if x not in out:
+			out.append(x)
+	return out
+
+
+def _registry_values():
+	"""keys of the codec registry the Accept machinery consults (media types), read from the working tree at run time"""
+	try:
+		from httoop.codecs import CODECS
+		return sorted(k if isinstance(k, str) else k.decode('latin-1') for k in CODECS)
+	except Exception:
+		return []
+
+
+def _q2(v, style):
+	"""a parameter value the way another sender may write it: token / quoted-string / quoted-string with quoted-pairs of ordinary characters"""
+	if v == '':
+		return None
+	special = re.search(r'[ ()<>@,;:\\"/\[\]?=]', v) is not None
+	if style == 'token' and not special:
+		return v
+	out = ''
+	for i, ch in enumerate(v):
+		if ch in '"\\' or (style == 'escape' and ch.isalnum() and i % 2 == 0):
+			out += '\\'
+		out += ch
+	return '"%s"' % out
+
+
+def _render2(el, style='token', psep=';', eq='=', qsep=';q='):
+	s = el['v']
+	for k, v in el['p']:
+		qv = _q2(v, style)
+		s += psep + (k if qv is None else k + eq + qv)
+	if el['q'] is not None:
+		s += qsep + el['q']
+	for k, v in el.get('ext', []):
+		qv = _q2(v, style)
+		s += psep + (k if qv is None else k + eq + qv)
+	return s
+
+
+def _mk(v, q=None, p=(), ext=()):
+	el = {'v': v, 'p': [list(x) for x in p], 'q': q}
+	if ext:
+		el['ext'] = [list(x) for x in ext]
+	return el
+
+
+def _wave4(rng, tier):
+	big = tier == 'thorough'
+	out = []
+	plain = [x for x in PARAMS if x[1] and all(ord(ch) < 128 for ch in x[1])]
+
+	def add(name, els, hname=None, nocoq=False, sep=', ', **kw):
+		fv = sep.join(_render2(e, **kw) for e in els).encode('ISO8859-1')
+		c = {'k': 'elems', 'name': name, 'fv': fv.hex(), 'want': els}
+		if hname is not None and hname != name:
+			c['hname'] = hname
+		if nocoq or len(fv) > 600:
+			c['nocoq'] = 1
+		out.append(c)
+		return c
+
+	# (4) the field names in every letter case (the registry of element classes is consulted by name); registered media types as values, in every case
+	for name in NAMES:
+		for hname in _lcases(name) + [name.title().swapcase()]:
+			for rep in range(4 if big else 2):
+				els = [_elem(rng, name, Q_OK) for _ in range(rng.randint(2, 5))]
+				for e in els:
+					e.pop('sep', None)
+				add(name, els, hname=hname)
+			add(name, [_mk(VALUES[name][0], 'x')], hname=hname)
+			add(name, [_mk(VALUES[name][0], ''), _mk(VALUES[name][1], '0.5')], hname=hname)
+	for mt in _registry_values():
+		for v in _lcases(mt):
+			others = [_mk(rng.choice(VALUES['Accept']), rng.choice(Q_OK)) for _ in range(rng.randint(0, 2))]
+			add('Accept', others[:1] + [_mk(v, rng.choice(Q_OK + [None]), rng.sample(plain, rng.choice([0, 0, 1])))] + others[1:])
+	# (6) the same list the way another sender writes it: parameter values as tokens / quoted-strings / quoted-pairs, blanks around ';' and '=', parameters in another order
+	for _ in range(1500 if big else 160):
+		name = rng.choice(NAMES)
+		els = []
+		for i in range(rng.randint(1, 4)):
+			ps = rng.sample(PARAMS, rng.choice([1, 2, 3]))
+			els.append(_mk(rng.choice(VALUES[name]), rng.choice(Q_OK + [None]), ps))
+		styles = ['token', 'quoted', 'escape']
+		base = add(name, els, style='token')
+		for st in styles[1:]:
+			c2 = add(name, els, style=st, psep=rng.choice([';', '; ', ' ; ']), sep=rng.choice([', ', ',', ' , ']))
+			out.append({'k': 'perm', 'name': name, 'fv': base['fv'], 'fv2': c2['fv']})
+		els3 = [dict(e, p=list(reversed(e['p']))) for e in reversed(els)]
+		c3 = add(name, els3, style=rng.choice(styles))
+		if len(set(e['v'] + repr(sorted(map(tuple, e['p']))) for e in els)) == len(els) or True:
+			out.append({'k': 'perm', 'name': name, 'fv': base['fv'], 'fv2': c3['fv']})
+	# (3) lengths at limits: number of elements, length of a value, of a parameter value, of the q text, of blank runs
+	for n in LIMITS:
+		name = rng.choice(NAMES)
+		if n <= 1024 or big:
+			qs = ['0.%03d' % rng.randint(0, 999) for _ in range(n)]
+			els = [_mk('%s%d' % (rng.choice(['a', 'b', 'zz']), i) if name != 'Accept' else 'a/t%d' % i, qs[i] if i % 5 else None) for i in range(n)]
+			c = add(name, els, nocoq=n > 80)
+			els2 = list(els)
+			rng.shuffle(els2)
+			c2 = add(name, els2, nocoq=n > 80)
+			out.append({'k': 'perm', 'name': name, 'fv': c['fv'], 'fv2': c2['fv']})
+			add(name, [_mk('same' if name != 'Accept' else 'a/b', '0.5', [('i', '%d' % i)]) for i in range(n)], nocoq=n > 80)
+		for name in (NAMES if big else [rng.choice(NAMES), 'Accept']):
+			longv = 'x' * n if name != 'Accept' else 'a/' + 'x' * (n - 2)
+			add(name, [_mk('b1' if name != 'Accept' else 'b/c', '0.3'), _mk(longv, '0.7'), _mk('c1' if name != 'Accept' else 'c/d')])
+			add(name, [_mk(VALUES[name][0], '0.2', [('x', 'y' * n)]), _mk(VALUES[name][1], '0.8')], style=rng.choice(['token', 'quoted']))
+			add(name, [_mk(VALUES[name][0], '0.2', [('k' * n, '1')]), _mk(VALUES[name][1], '0.8', ext=[('e' * n, 'v')] if name == 'Accept' else ())])
+			# q texts of n octets that are numbers: zeros after the point, leading zeros, digits beyond the third place
+			for q in ('1.' + '0' * (n - 2), '0.' + '0' * (n - 3) + '1', '0' * (n - 2) + '.5', '0.5' + '1' * (n - 3), '0.' + '9' * (n - 2)):
+				add(name, [_mk(VALUES[name][0], '0.5'), _mk(VALUES[name][1], q), _mk(VALUES[name][2], '0.50')], nocoq=True)
+			add(name, [_mk(VALUES[name][0], 'x' * n), _mk(VALUES[name][1], '0.5')])
+			blanks = ' ' * n
+			add(name, [_mk(VALUES[name][0], '0.2', [('x', '1')]), _mk(VALUES[name][1], '0.8')], psep=';' + blanks, sep=',' + blanks)
+			add(name, [_mk(VALUES[name][0], '0.2'), _mk(VALUES[name][1], '0.8')], qsep=blanks + ';' + blanks + 'q' + blanks + '=' + blanks, sep=blanks + ',')
+	# (5) degenerate fields, for every one of the five names
+	deg = [b'', b' ', b'\t ', b',', b',,', b', ,', b' , , ', b';', b';;', b'; ;', b',;', b';,', b'=', b'==', b';=', b'"', b'""', b'"""', b'","', b'";"', b'a,', b',a', b'a,,b', b'a, ,b', b',a,', b',,a,,',
+		b'a;', b'a;;', b'a; ;', b';a', b'a;=', b'a;=;', b'a;,b', b'a,;b', b'a;q', b'a;q;', b'a;q=', b'a;q=,', b'a;q=;', b'a;q=;;', b'a;q==', b'a;q=,b;q=', b'a;q=""', b'a;q="', b'a;q="0.5', b'a;q=0.5"',
+		b'a;q="0.5"', b'"a";q=0.5', b'"a;q=0.5"', b'"a;q=0.5', b'a";q=0.5', b'a;x=";q=0.5', b'a;x=";q=0.5, b', b'a;x=";q=0.5", b;q=0.1', b'a;x="\\";q=0.5', b'a;x="\\\\";q=0.5', b'a;q=0.5,,b;q=0.7',
+		b'a;q=0.5, ,b;q=0.7', b'a;q=0.5;,b', b'a;;q=0.5;;', b'a ; ; q=0.5', b';q=0.5, b', b'a;q=0.5, ;q=0.7', b',;q=1', b'q=0.5', b'q', b';q', b'a;q=0.5;q=', b'a;q=;q=0.5', b'a;q=0.5 0.7', b'a;q=0.5,0.7',
+		b'a; q=0.5; q=0.5', b'a;q=0.5, a;q=0.5, a;q=0.5', b'a, a, a', b'a;x, a;x, a;x=', b'*', b'*;q=0', b'*/*;q=0, *;q=0', b'a/;q=0.5', b'/b;q=0.5', b'/;q=0.5', b'//', b'a/b/c']
+	for fv in deg:
+		for name in NAMES:
+			out.append({'k': 'elems', 'name': name, 'fv': fv.hex()})
+	# (2) normalisation forms and look-alikes in every text position (oracle only: RFC 2231 / RFC 2047 text is outside the model)
+	for txt in UNITEXT:
+		for how in ('rfc2231', 'rfc2047', 'api'):
+			name = rng.choice(NAMES)
+			out.append({'k': 'uni', 'name': name, 'how': how, 'text': rng.choice(['', 'x']) + txt + rng.choice(['', 'y']), 'q': rng.choice(['0.5', '0.3', None]), 'q2': rng.choice(['0.4', '1', None])})
+	for txt in RAWTEXT:
+		for name in (NAMES if big else [rng.choice(NAMES), rng.choice(NAMES)]):
+			out.append({'k': 'uni', 'name': name, 'how': 'raw', 'text': txt, 'q': rng.choice(['0.5', '0.3', None]), 'q2': rng.choice(['0.4', '1', None])})
+	# (1) one Headers object used several times and changed in between; elements changed after they were returned
+	for _ in range(7000 if big else 700):
+		name = rng.choice(NAMES)
+		vals = rng.sample(VALUES[name], 3)
+		acts = []
+
+		def field(n=None):
+			els = []
+			for i in range(n or rng.randint(1, 3)):
+				q = rng.choice(Q_OK + Q_OK + [None, None, 'x', ''])
+				els.append(_mk(rng.choice(vals), q, rng.sample(plain, rng.choice([0, 0, 1]))))
+			return els
+		for _ in range(rng.randint(3, 7)):
+			r = rng.random()
+			if r < 0.3:
+				acts.append(['set', field()])
+			elif r < 0.45:
+				acts.append(['parse', field()])
+			elif r < 0.6:
+				acts.append(['append', field(1)])
+			elif r < 0.7:
+				acts.append([rng.choice(['append_el', 'set_el']), field(1)])
+			elif r < 0.75:
+				acts.append(['del'])
+			elif r < 0.82:
+				acts.append(['rotq'])  # the same elements with the quality values moved on by one: a field value of the same length
+			elif r < 0.9:
+				acts.append(['modq', rng.randrange(4), rng.choice(Q_OK), rng.random() < 0.5])
+			else:
+				acts.append(['elements'])
+		cur = []
+		for a in acts:  # fill in the rotated lists (the generator follows the listed elements the way the oracle does)
+			if a[0] in ('set', 'set_el'):
+				cur = list(a[1])
+			elif a[0] in ('parse', 'append', 'append_el'):
+				cur = cur + list(a[1])
+			elif a[0] == 'del':
+				cur = []
+			elif a[0] == 'rotq':
+				qs = [e['q'] for e in cur]
+				cur = [dict(e, q=q) for e, q in zip(cur, qs[1:] + qs[:1])]
+				a.append(cur)
+		out.append({'k': 'seq', 'name': name, 'acts': acts})
+	return out
 
 
 def _float(isb, t):
@@ -283,10 +479,159 @@ def observe(c):
 			return {'skip': True}
 		return {'c': 'Lt' if a < b else 'Gt' if a > b else 'Eq'}
 	if k == 'elems':
-		return _elements(c['name'], bytes.fromhex(c['fv']))
+		return _elements(c.get('hname', c['name']), bytes.fromhex(c['fv']))
 	if k == 'perm':
 		return {'a': _elements(c['name'], bytes.fromhex(c['fv'])), 'b': _elements(c['name'], bytes.fromhex(c['fv2']))}
+	if k == 'uni':
+		return _observe_uni(c)
+	if k == 'seq':
+		return {'s': _observe_seq(c)}
 	raise ValueError(k)
+
+
+def _cp(x):
+	if isinstance(x, bytes):
+		x = x.decode('ISO8859-1')
+	return [ord(ch) for ch in x]
+
+
+def _uni_field(c):
+	"""the field of a uni case: (field value bytes or None for the API path, value of the marked element, parameter name)"""
+	import base64
+	from urllib.parse import quote
+	name, txt = c['name'], c['text']
+	v = {'Accept': 'text/html', 'Accept-Charset': 'utf-8', 'Accept-Encoding': 'gzip', 'Accept-Language': 'en', 'TE': 'deflate'}[name]
+	v2 = {'Accept': 'a/b', 'Accept-Charset': 'us-ascii', 'Accept-Encoding': 'br', 'Accept-Language': 'de', 'TE': 'gzip'}[name]
+	tail = ('' if c['q'] is None else ';q=' + c['q'])
+	second = ', ' + v2 + ('' if c['q2'] is None else ';q=' + c['q2'])
+	how = c['how']
+	if how == 'rfc2231':
+		return (v + ";title*=utf-8''" + quote(txt.encode('utf-8'), safe='') + tail + second).encode('ascii'), v, v2
+	if how == 'rfc2047':  # the value itself is an encoded word
+		w = '=?utf-8?b?' + base64.b64encode(txt.encode('utf-8')).decode('ascii') + '?='
+		return (w + tail + second).encode('ascii'), None, v2
+	if how == 'raw':
+		return (v + ';title="' + txt + '"' + tail + second).encode('ISO8859-1'), v, v2
+	return None, v, v2
+
+
+def _observe_uni(c):
+	from httoop import Headers
+	from httoop.exceptions import InvalidHeader
+	fv, v, v2 = _uni_field(c)
+	h = Headers()
+	try:
+		if fv is None:
+			params = {'title': c['text']}
+			if c['q'] is not None:
+				params['q'] = c['q']
+			h.append(c['name'], v, **params)
+			if c['q2'] is not None:
+				h.append(c['name'], v2, q=c['q2'])
+			else:
+				h.append(c['name'], v2)
+		else:
+			h[c['name']] = fv
+		es = h.elements(c['name'])
+		out = []
+		for e in es:
+			q = e.quality
+			out.append({'v': _cp(e.value), 'p': sorted([_cp(k), _cp(x)] for k, x in e.params.items()), 'q': str(Fraction(q)), 't': bytes(e).hex()})
+		# what was composed must read back the same (the library's own re-encoding of the text)
+		h2 = Headers()
+		h2[c['name']] = b', '.join(bytes(e) for e in es)
+		back = [{'v': _cp(e.value), 'p': sorted([_cp(k), _cp(x)] for k, x in e.params.items())} for e in h2.elements(c['name'])]
+		return {'es': out, 'back': back}
+	except InvalidHeader:
+		return {'err': 'invalid'}
+	except Exception as exc:
+		return {'err': 'escape:%s' % type(exc).__name__, 'msg': str(exc)[:200]}
+
+
+def _summ(name, h):
+	"""elements of the live object, of the same object again, and of a fresh object holding the same field value"""
+	from httoop import Headers
+	raw = h.getbytes(name) if name in h else None
+	a = _elements_of(h, name)
+	b = _elements_of(h, name)
+	f = None
+	if raw is not None:
+		h2 = Headers()
+		h2[name] = raw
+		f = _elements_of(h2, name)
+	return {'raw': None if raw is None else raw.hex(), 'a': a, 'b': b, 'fresh': f}
+
+
+def _elements_of(h, name):
+	from httoop.exceptions import InvalidHeader
+	try:
+		es = h.elements(name)
+	except InvalidHeader:
+		return {'err': 'invalid'}
+	except Exception as exc:
+		return {'err': 'escape:%s' % type(exc).__name__, 'msg': str(exc)[:200]}
+	out = []
+	try:
+		for e in es:
+			q = e.quality
+			enc = lambda x: (x if isinstance(x, bytes) else x.encode('ISO8859-1')).hex()
+			out.append({'v': enc(e.value), 'p': [[enc(k), enc(v)] for k, v in e.params.items()], 't': bytes(e).hex(), 'q': None if q is None else str(Fraction(q)) if q == q and abs(q) != math.inf else 'nan'})
+	except Exception as exc:
+		return {'err': 'escape:%s' % type(exc).__name__, 'msg': str(exc)[:200]}
+	return {'es': out}
+
+
+def _observe_seq(c):
+	from httoop import Headers
+	from httoop.exceptions import InvalidHeader
+	from httoop.header.element import HEADER
+	name = c['name']
+	h = Headers()
+	out = []
+	for a in c['acts']:
+		op = a[0]
+		r = {'op': 'ok'}
+		try:
+			if op in ('set', 'parse', 'append'):
+				fv = ', '.join(_render2(e) for e in a[1]).encode('ISO8859-1')
+				if op == 'set':
+					h[name] = fv
+				elif op == 'parse':
+					h.parse(name.encode() + b': ' + fv)
+				else:
+					h.append(name, fv)
+			elif op in ('append_el', 'set_el'):
+				e = a[1][0]
+				params = dict((k, v) for k, v in e['p'])
+				if e['q'] is not None:
+					params['q'] = e['q']
+				(h.append_element if op == 'append_el' else h.set_element)(name, e['v'], params)
+			elif op == 'rotq':
+				els = a[1]
+				if els:
+					h[name] = ', '.join(_render2(e) for e in els).encode('ISO8859-1')
+			elif op == 'del':
+				h.pop(name, None)
+			elif op == 'modq':
+				es = h.elements(name) if name in h else []
+				if es:
+					e = es[a[1] % len(es)]
+					before = [e.quality, bytes(e)]
+					e.params['q'] = a[2].encode() if a[3] else a[2]
+					r['mod'] = {'before': str(Fraction(before[0])), 'after': str(Fraction(e.quality)), 'after2': str(Fraction(e.quality)), 'text': bytes(e).hex(),
+						'order': [bytes(x).hex() for x in HEADER[name].sorted(es)]}
+					h2 = Headers()
+					h2[name] = b', '.join(bytes(x) for x in es)
+					r['mod']['fresh'] = [bytes(x).hex() for x in h2.elements(name)]
+					r['mod']['idx'] = [i for i, x in enumerate(es) if x is e][0]
+					r['mod']['n'] = len(es)
+		except InvalidHeader:
+			r = {'op': 'invalid'}
+		except Exception as exc:
+			r = {'op': 'escape:%s' % type(exc).__name__, 'msg': str(exc)[:200]}
+		r.update(_summ(name, h))
+		out.append(r)
+	return out
 
 
 QSEP = re.compile(rb';\s*q\s*=\s*')
@@ -337,6 +682,8 @@ def coq_case(c, o):
 		if o.get('skip'):
 			return None
 		return 'CFloatCmp %s %s %s %s %s' % (B(c['b1']), X(bytes.fromhex(c['t1'])), B(c['b2']), X(bytes.fromhex(c['t2'])), o['c'])
+	if c.get('nocoq') or k in ('uni', 'seq'):
+		return None  # long items of the fourth wave, Unicode text (RFC 2231 / 2047: outside the model) and object sequences: oracle only
 	if k == 'elems':
 		if 'harness_exception' in o or str(o.get('err', '')).startswith('escape'):
 			return 'CFloat true [] OFin'  # force a disagreement
@@ -478,6 +825,10 @@ def oracle(c, o):
 		return 'unexpected exception %s' % (o,)
 	if k == 'elems':
 		return _check_result(c, o, c['name'])
+	if k == 'uni':
+		return _oracle_uni(c, o)
+	if k == 'seq':
+		return _oracle_seq(c, o['s'])
 	if k == 'perm':
 		a, b = o['a'], o['b']
 		for r in (a, b):
@@ -491,6 +842,84 @@ def oracle(c, o):
 			key = lambda e: (e['v'], tuple(map(tuple, sorted(e['p']))), e['q'])
 			if sorted(map(key, a['es'])) != sorted(map(key, b['es'])):
 				return 'order-dependent: the multisets of returned elements differ'
+	return None
+
+
+def _oracle_uni(c, o):
+	if str(o.get('err', '')).startswith('escape'):
+		return 'unexpected exception %s' % (o,)
+	txt = c['text']
+	fv, v, v2 = _uni_field(c)
+	what = 'text %a in the %s position of %s (%s)' % (txt, 'value' if c['how'] == 'rfc2047' else 'parameter', c['name'], 'h.append(...)' if fv is None else repr(fv))
+	if 'es' not in o:
+		return 'valid-field-rejected: %s' % what
+	es = o['es']
+	fr = [Fraction(e['q']) for e in es]
+	if any(a < b for a, b in zip(fr, fr[1:])):
+		return 'not-sorted: qualities %s; %s' % ([e['q'] for e in es], what)
+	q1 = Fraction(1) if c['q'] is None else Fraction(float(c['q']))
+	q2 = Fraction(1) if c['q2'] is None else Fraction(float(c['q2']))
+	want_v = _cp(txt) if c['how'] == 'rfc2047' else _cp(v)
+	want_p = [] if c['how'] == 'rfc2047' else [[_cp('title'), _cp(txt)]]
+	exp = sorted([repr((want_v, want_p, q1)), repr((_cp(v2), [], q2))])
+	got = sorted(repr((e['v'], [p for p in e['p'] if p[0] != _cp('q')], Fraction(e['q']))) for e in es)
+	if exp != got:
+		return 'not-a-permutation: %s comes back as %s: not code point for code point / not exactly once' % (what, [(''.join(map(chr, e['v'])), [(''.join(map(chr, k)), ''.join(map(chr, x))) for k, x in e['p']]) for e in es])
+	back = sorted(repr((e['v'], [p for p in e['p'] if p[0] != _cp('q')])) for e in o['back'])
+	if back != sorted([repr((want_v, want_p)), repr((_cp(v2), []))]):
+		return 'the composed elements of %s do not read back code point for code point: %s' % (what, o['back'])
+	return None
+
+
+def _oracle_seq(c, obs):
+	"""every state of one Headers object = what a fresh object holding the listed elements gives (clauses 1-3 through _check_result), twice the same"""
+	name = c['name']
+	cur = None  # listed elements, None = no field
+	for i, (a, ob) in enumerate(zip(c['acts'], obs)):
+		op = a[0]
+		where = 'after action %d of %r on one Headers object' % (i, c['acts'][:i + 1])
+		if str(ob['op']).startswith('escape'):
+			return '%s: unexpected exception %s' % (where, ob)
+		if op == 'set':
+			cur = list(a[1])
+		elif op in ('parse', 'append'):
+			cur = (cur or []) + list(a[1])
+		elif op == 'append_el':
+			if ob['op'] == 'ok':
+				cur = (cur or []) + list(a[1])
+		elif op == 'set_el':
+			if ob['op'] == 'ok':
+				cur = list(a[1])
+		elif op == 'del':
+			cur = None
+		elif op == 'rotq':
+			if a[1]:
+				cur = list(a[1])
+		if op in ('append_el', 'set_el'):
+			kind = _qnum(a[1][0]['q'].encode()) if a[1][0]['q'] is not None else None
+			if (kind in (('nan',), ('empty',))) != (ob['op'] == 'invalid'):
+				return '%s: creating the element %r: %s' % (where, a[1][0], ob['op'])
+		elif ob['op'] != 'ok' and op != 'modq':
+			return '%s: %s' % (where, ob['op'])
+		if op == 'modq' and 'mod' in ob:
+			m = ob['mod']
+			if m['after'] != str(Fraction(float(a[2]))) or m['after2'] != m['after']:
+				return '%s: the quality of the element whose q parameter was replaced by %r reads %s (before %s)' % (where, a[2], m['after'], m['before'])
+			if m['order'] != m['fresh']:
+				return '%s: sorting the changed elements gives %r, a fresh field of the same elements gives %r' % (where, [bytes.fromhex(x) for x in m['order']], [bytes.fromhex(x) for x in m['fresh']])
+		if ob['a'] != ob['b']:
+			return '%s: two calls of elements() differ: %r / %r' % (where, ob['a'], ob['b'])
+		if cur is None:
+			if ob['raw'] is not None or ob['a'] != {'es': []}:
+				return '%s: the field is gone but elements() gives %r' % (where, ob['a'])
+			continue
+		if ob['fresh'] != ob['a']:
+			return '%s: elements() gives %r, a fresh Headers object with the same field value %r gives %r' % (where, ob['a'], bytes.fromhex(ob['raw'] or ''), ob['fresh'])
+		if any(_names_collide(el) for el in cur):
+			continue
+		fail = _check_result({'fv': bytes.fromhex(ob['raw'] or ''), 'want': cur}, ob['a'], name)
+		if fail:
+			return '%s: %s' % (where, fail)
 	return None
 
 
